@@ -29,6 +29,7 @@ def make_ctx(tier):
 
 
 def run(ctx, tier):
+    ctx.rule("A3", "(shared with C19.I2) the protocol setter's state-override block: three refusals, then default-port elision, in all four copies")
     ctx.rule("A1", "every failing exit of a setter is reached with all written fields restored")
     ctx.rule("A2", "snapshots used by a restore are taken before the first mutation")
     cfgs = C.configs_for(tier, thorough=["release", "ssse3", "avx512", "devchecks", "amalgamated", "nopattern"])
@@ -36,6 +37,8 @@ def run(ctx, tier):
     for name in cfgs:
         ctx.set_config(name)
         check(ctx, fxs[name])
+        from rules import c19
+        c19.check_scheme_copies(ctx, fxs[name], "A3")
 
 
 def check(ctx, fx):
